@@ -1361,6 +1361,10 @@ def const_eq(a, b):
                 return None
             return ('enum', v[1], v[2], xs)
         return None
+    # two values of one enum built with different variants are different whatever they carry (`Some(x) == None`)
+    if isinstance(a, tuple) and isinstance(b, tuple) and a and b and a[0] in ('agg', 'enum') and b[0] in ('agg', 'enum') and a[1] == b[1] and a[2] != b[2] \
+            and a[2] is not None and b[2] is not None:
+        return False
     na, nb = norm(a), norm(b)
     if na is None or nb is None:
         return None
